@@ -304,4 +304,129 @@ def failedClauses (g : Grid) (areas : List Rat) (a : Arr Rat) (o : Obs) : List S
      | .returned _ => ["unnamed_sized_rejects"]
    else [])
 
+/-! ### extended values: NaN and ±∞ in the data (IEEE-754 semantics of Σ area·value)
+
+  The SAME model function `integrate` is run over `ExtVal` (areas embedded as `fin`): `+` and `*`
+  are the IEEE rules on the special values and exact rational arithmetic on finite ones.  Hence:
+  any NaN term ⇒ NaN; ∞·0 ⇒ NaN; ∞ − ∞ ⇒ NaN; otherwise ±∞ or the exact sum. -/
+
+inductive ExtVal | nan | pinf | ninf | fin (q : Rat)
+deriving DecidableEq, Repr
+
+namespace ExtVal
+
+def neg : ExtVal → ExtVal
+  | nan => nan | pinf => ninf | ninf => pinf | fin q => fin (-q)
+
+def add : ExtVal → ExtVal → ExtVal
+  | nan, _ => nan
+  | _, nan => nan
+  | pinf, ninf => nan
+  | ninf, pinf => nan
+  | pinf, _ => pinf
+  | _, pinf => pinf
+  | ninf, _ => ninf
+  | _, ninf => ninf
+  | fin a, fin b => fin (a + b)
+
+/-- sign of a rational as an extended infinity factor: `∞·q` -/
+def infTimes (pos : Bool) (q : Rat) : ExtVal :=
+  if q = 0 then nan else if (0 < q) = pos then pinf else ninf
+
+def mul : ExtVal → ExtVal → ExtVal
+  | nan, _ => nan
+  | _, nan => nan
+  | pinf, pinf => pinf
+  | ninf, ninf => pinf
+  | pinf, ninf => ninf
+  | ninf, pinf => ninf
+  | pinf, fin q => infTimes true q
+  | fin q, pinf => infTimes true q
+  | ninf, fin q => infTimes false q
+  | fin q, ninf => infTimes false q
+  | fin a, fin b => fin (a * b)
+
+instance : Add ExtVal := ⟨add⟩
+instance : Mul ExtVal := ⟨mul⟩
+instance : OfNat ExtVal 0 := ⟨fin 0⟩
+
+def toRat? : ExtVal → Option Rat
+  | fin q => some q
+  | _ => none
+
+end ExtVal
+
+/-- xarray's `sum(skipna=True)` (seeded variant C06g; NOT what /repo does): NaN products are
+    dropped from the sum -/
+def dotSkipNaN : List Rat → List ExtVal → ExtVal
+  | a :: as, d :: ds =>
+      match ExtVal.fin a * d with
+      | .nan => dotSkipNaN as ds
+      | t => t + dotSkipNaN as ds
+  | _, _ => 0
+
+/-- what is observed of a call on data with special values -/
+inductive ObsE | rejected | returned (r : Arr ExtVal)
+deriving DecidableEq, Repr
+
+def obsEOf : Outcome ExtVal → ObsE
+  | .ok r => .returned r
+  | .error _ => .rejected
+
+/-- the value clause on extended values: the class (NaN, +∞, −∞, finite) is the IEEE class of
+    Σ area·value, and a finite value is within the float tolerance of the exact sum -/
+def CloseE (areas : List Rat) (row : List ExtVal) (o : ExtVal) : Prop :=
+  match dot (areas.map ExtVal.fin) row, o with
+  | .nan, .nan => True
+  | .pinf, .pinf => True
+  | .ninf, .ninf => True
+  | .fin _, .fin v => Close areas ((row.take areas.length).filterMap ExtVal.toRat?) v
+  | _, _ => False
+
+instance (areas row o) : Decidable (CloseE areas row o) := by
+  unfold CloseE; split <;> infer_instance
+
+def SpecValuesE (areas : List Rat) (a r : Arr ExtVal) : Prop :=
+  ∀ i, i < prodL a.shape.dropLast →
+    ∃ v, r.data[i]? = some v ∧ CloseE areas (rowAt areas.length a.data i) v
+
+instance (v : Option ExtVal) (p : ExtVal → Prop) [DecidablePred p] :
+    Decidable (∃ x, v = some x ∧ p x) :=
+  match v with
+  | none => isFalse (by rintro ⟨x, h, _⟩; cases h)
+  | some y => if h : p y then isTrue ⟨y, rfl, h⟩
+              else isFalse (by rintro ⟨x, hx, hp⟩; cases hx; exact h hp)
+instance (areas a r) : Decidable (SpecValuesE areas a r) := by unfold SpecValuesE; infer_instance
+
+/-- the structural clauses (dims, shape, name, grid) on extended-value arrays -/
+def SpecMetaE (a r : Arr ExtVal) : Prop :=
+  r.dims = a.dims.dropLast ∧ (r.shape = a.shape.dropLast ∧ r.data.length = prodL a.shape.dropLast) ∧
+  r.name = a.name ∧ r.grid = a.grid
+
+instance (a r) : Decidable (SpecMetaE a r) := by unfold SpecMetaE; infer_instance
+
+/-- **C06 on data with special values** -/
+def SpecE (g : Grid) (areas : List Rat) (a : Arr ExtVal) (o : ObsE) : Prop :=
+  (FaceCentred g a → ∃ r, o = .returned r ∧ SpecMetaE a r ∧ SpecValuesE areas a r) ∧
+  (NodeOrEdge a → o = .rejected) ∧
+  (SizedUnnamed g a → o = .rejected)
+
+def failedClausesE (g : Grid) (areas : List Rat) (a : Arr ExtVal) (o : ObsE) : List String :=
+  (if FaceCentred g a then
+     match o with
+     | .rejected => ["face_data_rejected"]
+     | .returned r =>
+       (if SpecMetaE a r then [] else ["meta"]) ++ (if SpecValuesE areas a r then [] else ["values"])
+   else []) ++
+  (if NodeOrEdge a then
+     match o with
+     | .rejected => []
+     | .returned _ => ["dispatch_rejects"]
+   else []) ++
+  (if SizedUnnamed g a then
+     match o with
+     | .rejected => []
+     | .returned _ => ["unnamed_sized_rejects"]
+   else [])
+
 end UxVerif.Integrate
